@@ -2,6 +2,7 @@ import Oracle.Proto
 import InfluxQL.Model.Duration
 import InfluxQL.Model.Scanner
 import InfluxQL.Model.Quote
+import Oracle.Sexp
 open InfluxQL Oracle
 
 def durErrMsg : DurErr → List Char
@@ -55,6 +56,13 @@ def handle (stream : String) (args : List String) : String :=
     match segs.mapM decStr with
     | none => "bad-arg"
     | some ss => encStr (quoteIdent ss)
+  | "parse.expr", [a, p, l] =>
+    match decStr a, decParams p, decLower l with
+    | some text, some params, some tbl =>
+      match parseExprText text params tbl with
+      | .ok e => "ok " ++ sexpExpr e
+      | .error f => showFail f
+    | _, _, _ => "bad-arg"
   | _, _ => "bad-op"
 
 partial def loop (hin : IO.FS.Stream) (hout : IO.FS.Stream) : IO Unit := do
